@@ -1,11 +1,55 @@
 """C04: generated C codecs are memory safe, total and free of prior-state influence (safety obligations of the same
-symbolic executions as C01/C02)."""
-from vk import report
+symbolic executions as C01/C02), including the documented per-field capacity override with user-reduced capacities."""
+import pathlib
+import shutil
+import subprocess
+import tempfile
+
+from vk import render, report
 from props import c01
+from props import perprogram as PP
+
+
+def override_buffer_check_witness():
+    """With the capacity-override option and a user override, the generated serializer has NO buffer-size check (the
+    option documents this).  The override variant above is therefore proved under the precondition that the caller
+    supplies at least the maximum size; this native run shows what happens otherwise (ASan, exactly-sized heap buffer)."""
+    work = pathlib.Path(tempfile.mkdtemp(prefix="vk_c04o_"))
+    try:
+        render.render_types("c", PP.CORPUS / "vk", work / "out", {"enable_override_variable_array_capacity": True})
+        (work / "t.c").write_text(
+            '#define vk_inner_InnerD_1_0_q_ARRAY_CAPACITY_ 1U\n#include "vk/inner/InnerD_1_0.h"\n#include <stdlib.h>\n#include <stdio.h>\n'
+            "int main(void) {\n  vk_inner_InnerD_1_0 o; o.p = 1; o.q.count = 1; o.q.elements[0] = 2;\n  uint8_t* buf = malloc(1); size_t sz = 1;\n"
+            '  int8_t rc = vk_inner_InnerD_1_0_serialize_(&o, buf, &sz);\n  printf("rc=%d\\n", rc); free(buf); return 0;\n}\n')
+        c = subprocess.run(["clang", "-std=c11", "-g", "-fsanitize=address,undefined", "-fno-sanitize-recover=all", "-I", str(work / "out"), str(work / "t.c"), "-o", str(work / "t")],
+                           capture_output=True, text=True)
+        if c.returncode != 0:
+            return {"harness_error": c.stderr[:500]}
+        r = subprocess.run([str(work / "t")], capture_output=True, text=True)
+        if r.returncode != 0 and "heap-buffer-overflow" in r.stderr:
+            return {"input": "InnerD{p=1,q=[2]} serialized into a 1-byte heap buffer, vk_inner_InnerD_1_0_q_ARRAY_CAPACITY_=1U",
+                    "why": "heap-buffer-overflow (WRITE) in the generated serializer instead of -NUNAVUT_ERROR_SERIALIZATION_BUFFER_TOO_SMALL", "asan": r.stderr[:1500]}
+        return None if "rc=-" in r.stdout else {"harness_error": f"unexpected outcome: {r.stdout[:100]} {r.stderr[:300]}"}
+    finally:
+        shutil.rmtree(work, ignore_errors=True)
+
+
+def extra(run):
+    w = override_buffer_check_witness()
+    name = "override:vk_inner_InnerD_1_0_serialize_#undersized-buffer-is-refused"
+    if w is None:
+        run.add_check(name, True, "native ASan run", 0, "refused with an error code")
+    elif "harness_error" in w:
+        run.undecide(f"{name}: harness: {w['harness_error']}")
+    else:
+        run.add_check(name, False, "native ASan run", 0, w["why"])
+        run.fail(report.Failure(name, "safety", f"{w['input']}: {w['why']}", {"witness": w}, True))
+    run.assume("override variant: every variable-length array field of non-boolean elements with capacity > 1 is overridden to capacity - 1; the serializers of that variant are proved under the "
+               "precondition 8*capacity_bytes >= max bits, because the option removes the buffer-size check (documented; see the known finding)")
 
 
 def main():
-    return c01.main("C04", ("ser", "des"), ("safety", "assert", "frame", "variant", "pre"), "serializers and deserializers (safety/frame obligations)")
+    return c01.main("C04", ("ser", "des"), ("safety", "assert", "frame", "variant", "pre"), "serializers and deserializers (safety/frame obligations)", extra=extra)
 
 
 if __name__ == "__main__":
